@@ -8,6 +8,7 @@ pub mod ns_ {
 use super::*;
 use crate::attrs_::{Attribute, Attributes, AttrError};
 use vstd::prelude::*;
+use vstd::string::StringSliceAdditionalSpecFns;
 pub type Result<T> = core::result::Result<T, Error>;
 pub type Span = core::ops::Range<u64>;
 
@@ -87,6 +88,16 @@ impl<'a> PartialEq for Prefix<'a> {
 
 impl<'a> Prefix<'a> {
 //@extract name::Prefix::into_inner | src/name.rs :: impl<'a> Prefix<'a> :: fn into_inner | serves=C05
+ pub fn into_inner(self) -> (r: &'a [u8])
+        ensures r@ == self.0@
+ {
+        self.0
+    }
+//@end
+}
+
+impl<'a> Namespace<'a> {
+//@extract name::Namespace::into_inner | src/name.rs :: impl<'a> Namespace<'a> :: fn into_inner | serves=C05
  pub fn into_inner(self) -> (r: &'a [u8])
         ensures r@ == self.0@
  {
@@ -371,6 +382,87 @@ pub proof fn lemma_decls_view_push(b: Seq<NamespaceEntry>, buf: Seq<u8>, b2: Seq
             assert forall|j: int| e.start + e.prefix_len <= j < e.start + e.prefix_len + e.value_len implies buf2[j] == buf[j] by { assert(buf2.subrange(0, buf.len() as int)[j] == buf2[j]); }
         }
     }
+}
+/// verified cursor over a slice (declared rewrite of `for x in &[..]`, N2): yields the elements in order
+pub mod shim_s {
+    use vstd::prelude::*;
+    pub struct SliceIter<'a, T> { pub s: &'a [T], pub pos: usize }
+    impl<'a, T> SliceIter<'a, T> {
+        pub fn new(s: &'a [T]) -> (r: Self) ensures r.s == s, r.pos == 0 { SliceIter { s, pos: 0 } }
+        pub fn next(&mut self) -> (r: Option<&'a T>)
+            requires old(self).pos <= old(self).s@.len()
+            ensures final(self).s == old(self).s,
+                match r {
+                    Some(x) => old(self).pos < old(self).s@.len() && *x == old(self).s@[old(self).pos as int] && final(self).pos == old(self).pos + 1,
+                    None => old(self).pos == old(self).s@.len() && final(self).pos == old(self).pos,
+                }
+        {
+            if self.pos < self.s.len() { let x = &self.s[self.pos]; self.pos = self.pos + 1; Some(x) } else { None }
+        }
+    }
+}
+impl Default for NamespaceResolver {
+//@extract name::NamespaceResolver::default | src/name.rs :: impl Default for NamespaceResolver :: fn default | serves=C05,C14
+//@rewrite &[RESERVED_NAMESPACE_XML, RESERVED_NAMESPACE_XMLNS] ==> shim_s::SliceIter::new(&[RESERVED_NAMESPACE_XML, RESERVED_NAMESPACE_XMLNS])
+    fn default() -> (r: Self)
+        ensures
+            // C05 (Namespaces in XML 1.1, section 3): a resolver starts at level 0 with exactly the two reserved bindings,
+            // `xml` and `xmlns`, bound to their reserved names -- before any element is read
+            r.wf(), r.nesting_level == 0, r.bindings@.len() == 2,
+            r.bindings@[0].spec_prefix(r.buffer@) == Some(seq![0x78u8, 0x6d, 0x6c]) && r.bindings@[0].spec_value(r.buffer@) == uri_xml() && r.bindings@[0].level == 0,
+            r.bindings@[1].spec_prefix(r.buffer@) == Some(seq![0x78u8, 0x6d, 0x6c, 0x6e, 0x73]) && r.bindings@[1].spec_value(r.buffer@) == uri_xmlns() && r.bindings@[1].level == 0,
+    {
+        let mut buffer = Vec::new();
+        let mut bindings = Vec::new();
+        let ghost e0 = seq![0x78u8, 0x6d, 0x6c] + uri_xml();
+        let ghost e1 = seq![0x78u8, 0x6d, 0x6c, 0x6e, 0x73] + uri_xmlns();
+        let ghost b0 = NamespaceEntry { start: 0, prefix_len: 3, value_len: 36, level: 0 };
+        let ghost b1 = NamespaceEntry { start: 39, prefix_len: 5, value_len: 29, level: 0 };
+        proof { axiom_items_slice::<u8>(); }
+        { let mut __it1 = shim_s::SliceIter::new(&[RESERVED_NAMESPACE_XML, RESERVED_NAMESPACE_XMLNS]); loop
+            invariant
+                __it1.pos <= 2, __it1.s@.len() == 2,
+                __it1.s@[0].0.0@ == seq![0x78u8, 0x6d, 0x6c], __it1.s@[0].1.0@ == uri_xml(),
+                __it1.s@[1].0.0@ == seq![0x78u8, 0x6d, 0x6c, 0x6e, 0x73], __it1.s@[1].1.0@ == uri_xmlns(),
+                e0 == seq![0x78u8, 0x6d, 0x6c] + uri_xml(), e1 == seq![0x78u8, 0x6d, 0x6c, 0x6e, 0x73] + uri_xmlns(),
+                b0 == (NamespaceEntry { start: 0, prefix_len: 3, value_len: 36, level: 0 }), b1 == (NamespaceEntry { start: 39, prefix_len: 5, value_len: 29, level: 0 }),
+                buffer@ == (if __it1.pos == 0 { Seq::<u8>::empty() } else if __it1.pos == 1 { e0 } else { e0 + e1 }),
+                bindings@ == (if __it1.pos == 0 { Seq::<NamespaceEntry>::empty() } else if __it1.pos == 1 { seq![b0] } else { seq![b0, b1] }),
+            ensures __it1.pos == 2, buffer@ == e0 + e1, bindings@ == seq![b0, b1],
+            decreases 2 - __it1.pos
+        { match __it1.next() { None => { break; } Some( ent) => {
+            let prefix = ent.0.into_inner();
+            let uri = ent.1.into_inner();
+            bindings.push(NamespaceEntry {
+                start: buffer.len(),
+                prefix_len: prefix.len(),
+                value_len: uri.len(),
+                level: 0,
+            });
+            buffer.extend(prefix);
+            buffer.extend(uri);
+            proof {
+                axiom_items_slice::<u8>();
+                assert(uri_xml().len() == 36 && uri_xmlns().len() == 29);
+                if __it1.pos == 1 { assert(buffer@ =~= e0); assert(bindings@ =~= seq![b0]); }
+                else { assert(buffer@ =~= e0 + e1); assert(bindings@ =~= seq![b0, b1]); }
+            }
+        } } } }
+        proof {
+            assert(uri_xml().len() == 36 && uri_xmlns().len() == 29);
+            assert((e0 + e1).subrange(0, 3) =~= seq![0x78u8, 0x6d, 0x6c]);
+            assert((e0 + e1).subrange(3, 39) =~= uri_xml());
+            assert((e0 + e1).subrange(39, 44) =~= seq![0x78u8, 0x6d, 0x6c, 0x6e, 0x73]);
+            assert((e0 + e1).subrange(44, 73) =~= uri_xmlns());
+        }
+
+        Self {
+            buffer,
+            bindings,
+            nesting_level: 0,
+        }
+    }
+//@end
 }
 impl NamespaceResolver {
 //@extract name::NamespaceResolver::push | src/name.rs :: impl NamespaceResolver :: fn push | serves=C05 n13=1 n1=match
@@ -756,7 +848,46 @@ pub open(crate) spec fn ns_post<'i>(pre: ReaderState, rem: Seq<u8>, brem: Seq<u8
         && post.config == pre.config
 }
 
+/// a fresh reader has no open element
+pub proof fn lemma_fresh_stack()
+    ensures forall|st: ReaderState| #[trigger] crate::ctor_::fresh_state(st) ==> st.stack().len() == 0
+{
+    assert forall|st: ReaderState| #[trigger] crate::ctor_::fresh_state(st) implies st.stack().len() == 0 by {
+        assert(st.stack() =~= Seq::<Seq<u8>>::empty());
+    }
+}
 impl<R> NsReader<R> {
+//@extract ns_reader::NsReader::new | src/reader/ns_reader.rs :: impl<R> NsReader<R> :: fn new | serves=C05,C14
+    pub(crate) fn new(reader: Reader<R>) -> (r: Self)
+        requires reader.inv(), reader.state.stack().len() == 0,
+        // the reader as given, the resolver at level 0 with the reserved bindings, nothing pending: the scope invariant holds
+        ensures r.reader == reader, r.inv(), !r.pending_pop, r.ns_resolver.nesting_level == 0,
+    {
+        proof { Self::lemma_inv_intro_all(); }
+        Self {
+            reader,
+            ns_resolver: NamespaceResolver::default(),
+            pending_pop: false,
+        }
+    }
+//@end
+//@extract ns_reader::NsReader::from_reader | src/reader/ns_reader.rs :: impl<R> NsReader<R> :: fn from_reader | serves=C14
+ pub(crate) fn from_reader(reader: R) -> (r: Self)
+        ensures r.reader.reader == reader, crate::ctor_::fresh_state(r.reader.state), r.inv(), !r.pending_pop,
+ {
+        proof { lemma_fresh_stack(); }
+        Self::new(Reader::from_reader(reader))
+    }
+//@end
+//@extract ns_reader::NsReader::config_mut | src/reader/ns_reader.rs :: impl<R> NsReader<R> :: fn config_mut | serves=C14
+ pub(crate) fn config_mut(&mut self) -> (r: &mut Config)
+        ensures *r == old(self).reader.state.config, final(self).reader.reader == old(self).reader.reader,
+            final(self).reader.state == (ReaderState { config: *final(r), ..old(self).reader.state }),
+            final(self).ns_resolver == old(self).ns_resolver, final(self).pending_pop == old(self).pending_pop,
+ {
+        self.reader.config_mut()
+    }
+//@end
 //@extract ns_reader::NsReader::read_event_impl | src/reader/ns_reader.rs :: impl<R> NsReader<R> :: fn read_event_impl | serves=C05
     fn read_event_impl<'i, B>(&mut self, buf: B) -> (r: Result<Event<'i>>)
     where
@@ -919,6 +1050,14 @@ impl<R: BufRead> NsReader<R> {
 }
 
 impl<'i> NsReader<&'i [u8]> {
+//@extract ns_reader::NsReader::from_str | src/reader/ns_reader.rs :: impl<'i> NsReader<&'i [u8]> :: fn from_str | serves=C14
+ pub(crate) fn from_str(s: &'i str) -> (r: Self)
+        ensures r.reader.reader@ == s.spec_bytes(), crate::ctor_::fresh_state(r.reader.state), r.inv(), !r.pending_pop,
+ {
+        proof { lemma_fresh_stack(); }
+        Self::new(Reader::from_str(s))
+    }
+//@end
 //@extract ns_reader::NsReader::read_event | src/reader/ns_reader.rs :: impl<'i> NsReader<&'i [u8]> :: fn read_event | serves=C05
  pub(crate) fn read_event(&mut self) -> (r: Result<Event<'i>>)
         requires
